@@ -163,6 +163,18 @@ func SpecSpace(quick bool, yield func(sp *Spec, family string)) {
 			}
 		}
 	}
+	// 2c. string literals with escapes where they are terminals: in a rule body, as a terminal handle, inside a rule handle
+	for _, lex := range []string{`\"`, `\\`, `a\"b`, `\x41`, `\n`, `\|`, `\/`, `a\\`, `\'`, `%s\"`} {
+		str := &Str{Lexeme: lex}
+		body := &Cat{Ops: []Expr{str, a}}
+		yield(&Spec{Name: "g", NameSemi: true, Decls: []Decl{&Rule{LHS: "start", RHS: body}}}, "escaped_strings")
+		yield(&Spec{Name: "g", NameSemi: true, Decls: []Decl{
+			&Directive{Assoc: "@left", Handles: []Handle{{Term: str}, {Term: a}}, Semi: true},
+			&Rule{LHS: "start", RHS: &Alt{Ops: []Expr{body, str}}}}}, "escaped_strings")
+		yield(&Spec{Name: "g", NameSemi: true, Decls: []Decl{
+			&Rule{LHS: "start", RHS: &Alt{Ops: []Expr{&Cat{Ops: []Expr{str, &NT{Name: "start"}}}, a}}},
+			&Directive{Assoc: "@right", Handles: []Handle{{Rule: &Rule{LHS: "start", RHS: &Cat{Ops: []Expr{str, &NT{Name: "start"}}}}}}, Semi: true}}}, "escaped_strings")
+	}
 	// 3. bracket nestings
 	wrap := []func(Expr) Expr{
 		func(x Expr) Expr { return &Group{x} }, func(x Expr) Expr { return &Opt{x} },
